@@ -71,19 +71,19 @@ func (h *harness) opTarfs(b []byte, how string) {
 	select {
 	case res = <-done:
 	case <-time.After(20 * time.Second):
-		h.r.Fail("", "tarfs-hang (New/WalkDir/Open/read did not return within 20 s) how="+how+" tar="+hx.Hex(b))
+		h.fail("", "tarfs-hang (New/WalkDir/Open/read did not return within 20 s) how="+how+" tar="+hx.Hex(b))
 		h.r.Case("tarfs "+hx.Hex(b), true)
 		return
 	}
 	switch {
 	case res.out == "panic":
-		h.r.Fail("", "tarfs-panic (New/WalkDir/Stat/Open/read) how="+how+" tar="+hx.Hex(b))
+		h.fail("", "tarfs-panic (New/WalkDir/Stat/Open/read) how="+how+" tar="+hx.Hex(b))
 	case res.out == "hang":
-		h.r.Fail("", fmt.Sprintf("tarfs-runaway-reads (more than %d reads of a %d-byte archive) how=%s tar=%s", lr.limit, len(b), how, hx.Hex(b)))
+		h.fail("", fmt.Sprintf("tarfs-runaway-reads (more than %d reads of a %d-byte archive) how=%s tar=%s", lr.limit, len(b), how, hx.Hex(b)))
 	case len(res.out) > 8 && res.out[:8] == "bigfile:":
-		h.r.Fail("", "tarfs-file-larger-than-archive "+res.out[8:]+" how="+how+" tar="+hx.Hex(b))
+		h.fail("", "tarfs-file-larger-than-archive "+res.out[8:]+" how="+how+" tar="+hx.Hex(b))
 	case res.alloc > tarfsAllocBound(len(b)):
-		h.r.Fail("", fmt.Sprintf("tarfs-allocation-out-of-proportion allocated=%d archive-bytes=%d how=%s tar=%s", res.alloc, len(b), how, hx.Hex(b)))
+		h.fail("", fmt.Sprintf("tarfs-allocation-out-of-proportion allocated=%d archive-bytes=%d how=%s tar=%s", res.alloc, len(b), how, hx.Hex(b)))
 	}
 	if res.alloc > h.tarfsAllocMax {
 		h.tarfsAllocMax = res.alloc
